@@ -115,6 +115,7 @@ type collector struct {
 	path      string              // seam:engine, e.g. "inpkg-measure"
 	stage     string              // mem | flushed | merged | memmerged | e2e
 	seenValue map[string]struct{}
+	descr     *series // set while a descriptor dataset (Gen "pbx") runs: the artefact records the descriptor, so that --replay rebuilds the whole dataset
 }
 
 func newCollector(path string) *collector {
@@ -134,6 +135,10 @@ func (c *collector) report(key string, art map[string]any) {
 	}
 	art["path"] = c.path
 	art["stage"] = c.stage
+	if c.descr != nil {
+		art["case"] = art["series"]
+		art["series"] = c.descr
+	}
 	c.Findings[key] = &finding{Key: key, Art: art, N: 1}
 }
 
